@@ -44,6 +44,8 @@ ROOT = [
 ]
 
 HANGS = [
+    {"signature": "hang-or-oom fn=common-lisp:expt integer power 2^62",
+     "what": "(expt 3 4611686018427387904) never returns and (expt 4611686018427387904 4611686018427387904) dies with fatal error: out of memory: since the exact-power repair the integer power is computed without any bound on the size of the result (a result of that size cannot exist; a condition is expected). Avoided in generation: expt with 2^62 as second argument (skiptable.go: expt-huge-exponent)."},
     {"signature": "hang fmt ~mincol,0A / ~mincol,0S (column increment 0)",
      "what": "(format nil \"~5,0A\" 1) never returns: the padding loop of ~A/~S adds colinc pad characters until mincol is reached and colinc = 0 adds none (for len(out)+len(pad) < mincol { for i := colinc; 0 < i; i-- ...). ~mincol,0< and ~n,0T with the same parameter end in integer divide by zero (listed separately). Avoided in generation: ~A/~S whose second parameter is 0, # or v with 0 among the arguments (format.go: fmtRisk, fmt-colinc-zero)."},
     {"signature": "hang fn=common-lisp:do|do* end-test not a list",
